@@ -57,8 +57,10 @@ import (
 //                           restart=<ok|err-…|panic-…> la=<h> agree=<t|f> re=<notified at restart> cont=<ok|…>
 //      blocks 1..a are accepted by consensus (index update + enqueue); processing of block k
 //      stops at point p: 2 = before its execution results are written, 3 = after the results
-//      write and before the state commit, 4 = after the state commit and before the accepted
-//      subscribers are notified, 5 = after the notification (before block k+1 is touched).
+//      write and before the state commit, 4 = after the state commit and before the first
+//      accepted-subscriber (A) is notified, 5 = after A and before the second subscriber (B),
+//      6 = after both notifications (before block k+1 is touched). pre/re are A's logs,
+//      preB/reB are B's.
 //      (Point 1, after the index update and before the enqueue of block a, has the same
 //      persistent state as `crash a 2 k`: the queue is volatile.)
 
@@ -104,7 +106,7 @@ func c18Genesis() []byte {
 
 // c18Start creates and initializes a VM over dir. The accepted subscriber is registered before
 // Initialize so that it sees the notifications delivered while the VM starts up.
-func c18Start(t *testing.T, dir string, genesisBytes []byte, sub func(h uint64)) (n *c18Node, err error) {
+func c18Start(t *testing.T, dir string, genesisBytes []byte, sub func(h uint64), subB func(h uint64)) (n *c18Node, err error) {
 	actionParser := codec.NewTypeParser[chain.Action]()
 	authParser := codec.NewTypeParser[chain.Auth]()
 	outputParser := codec.NewTypeParser[codec.Typed]()
@@ -123,6 +125,9 @@ func c18Start(t *testing.T, dir string, genesisBytes []byte, sub func(h uint64))
 	snowVM := snow.NewVM("v0.0.1", v)
 	snowVM.AddAcceptedSub(event.SubscriptionFunc[*chain.OutputBlock]{NotifyF: func(_ context.Context, b *chain.OutputBlock) error {
 		sub(b.GetHeight())
+		return nil
+	}}, event.SubscriptionFunc[*chain.OutputBlock]{NotifyF: func(_ context.Context, b *chain.OutputBlock) error {
+		subB(b.GetHeight())
 		return nil
 	}})
 	chainID := hashing.ComputeHash256Array(genesisBytes)
@@ -172,6 +177,7 @@ type c18Report struct {
 	Outcome  string   `json:"outcome"`
 	Err      string   `json:"err,omitempty"`
 	Notified []uint64 `json:"notified"`
+	NotifiedB []uint64 `json:"notified_b"`
 	LA       uint64   `json:"la"`
 	LAID     string   `json:"laid"`
 	Root     string   `json:"root"`
@@ -270,8 +276,8 @@ func TestVerifC18Child(t *testing.T) {
 	dir, work := os.Getenv(c18EnvDir), os.Getenv(c18EnvWork)
 	args := strings.Fields(os.Getenv(c18EnvArgs))
 	var mu sync.Mutex
-	var notified []uint64
-	var stallSub func(h uint64) // set in crash mode
+	var notified, notifiedB []uint64
+	var stallSub, stallSubB func(h uint64) // set in crash mode
 	sub := func(h uint64) {
 		if stallSub != nil {
 			stallSub(h)
@@ -279,6 +285,15 @@ func TestVerifC18Child(t *testing.T) {
 		}
 		mu.Lock()
 		notified = append(notified, h)
+		mu.Unlock()
+	}
+	subB := func(h uint64) {
+		if stallSubB != nil {
+			stallSubB(h)
+			return
+		}
+		mu.Lock()
+		notifiedB = append(notifiedB, h)
 		mu.Unlock()
 	}
 	report := filepath.Join(work, "report-"+mode+".json")
@@ -290,7 +305,7 @@ func TestVerifC18Child(t *testing.T) {
 		if err := os.WriteFile(filepath.Join(work, "genesis.json"), genesisBytes, 0o644); err != nil {
 			t.Fatal(err)
 		}
-		n, err := c18Start(t, dir, genesisBytes, sub)
+		n, err := c18Start(t, dir, genesisBytes, sub, subB)
 		if err != nil {
 			t.Fatal(err)
 		}
@@ -322,9 +337,8 @@ func TestVerifC18Child(t *testing.T) {
 			if err := n.snowVM.SetPreference(ctx, blk.ID()); err != nil {
 				t.Fatal(err)
 			}
-			if len(blk.Output.StatelessBlock.Txs) != 1 {
-				t.Fatalf("block %d has %d txs", i+1, len(blk.Output.StatelessBlock.Txs))
-			}
+			// under load the builder's time budget can run out before the tx is packed: the block is
+			// then empty and the tx goes into a later block; either way the chain is what it is
 			if err := blk.SyncAccept(ctx); err != nil {
 				t.Fatal(err)
 			}
@@ -336,7 +350,7 @@ func TestVerifC18Child(t *testing.T) {
 		if err := os.WriteFile(filepath.Join(work, "blocks.txt"), []byte(strings.Join(blocks, "\n")+"\n"), 0o644); err != nil {
 			t.Fatal(err)
 		}
-		rep.Notified = notified
+		rep.Notified, rep.NotifiedB = notified, notifiedB
 		rep.LA, rep.LAID, rep.Results = n.lastAccepted()
 		rep.Root = n.root()
 		if err := n.snowVM.Shutdown(ctx); err != nil {
@@ -352,22 +366,33 @@ func TestVerifC18Child(t *testing.T) {
 		blocks := c18ReadBlocks(work)
 		reached := make(chan struct{})
 		var once sync.Once
-		if p == 4 || p == 5 {
+		if p == 4 {
 			stallSub = func(h uint64) {
-				if p == 4 && h == uint64(k) {
+				if h == uint64(k) {
 					once.Do(func() { close(reached) })
 					select {}
 				}
 				mu.Lock()
 				notified = append(notified, h)
 				mu.Unlock()
+			}
+		}
+		if p == 5 || p == 6 {
+			stallSubB = func(h uint64) {
 				if p == 5 && h == uint64(k) {
+					once.Do(func() { close(reached) })
+					select {}
+				}
+				mu.Lock()
+				notifiedB = append(notifiedB, h)
+				mu.Unlock()
+				if p == 6 && h == uint64(k) {
 					once.Do(func() { close(reached) })
 					select {}
 				}
 			}
 		}
-		n, err := c18Start(t, dir, genesisBytes, sub)
+		n, err := c18Start(t, dir, genesisBytes, sub, subB)
 		if err != nil {
 			t.Fatal(err)
 		}
@@ -395,6 +420,7 @@ func TestVerifC18Child(t *testing.T) {
 		}
 		mu.Lock()
 		rep.Notified = append([]uint64{}, notified...)
+		rep.NotifiedB = append([]uint64{}, notifiedB...)
 		mu.Unlock()
 		rep.Idx, rep.St, rep.Res = n.markers()
 		c18WriteJSON(report, rep)
@@ -404,9 +430,10 @@ func TestVerifC18Child(t *testing.T) {
 		genesisBytes, _ := os.ReadFile(filepath.Join(work, "genesis.json"))
 		blocks := c18ReadBlocks(work)
 		rep := c18Report{}
-		n, err := c18Start(t, dir, genesisBytes, sub)
+		n, err := c18Start(t, dir, genesisBytes, sub, subB)
 		mu.Lock()
 		rep.Notified = append([]uint64{}, notified...)
+		rep.NotifiedB = append([]uint64{}, notifiedB...)
 		mu.Unlock()
 		if err != nil {
 			rep.Outcome, rep.Err = c18ClassifyErr(err), err.Error()
@@ -454,6 +481,8 @@ func c18ClassifyErr(err error) string {
 		return "err-index-ahead"
 	case strings.Contains(s, "does not match state height"):
 		return "err-results-height"
+	case strings.Contains(s, "failed to fetch last execution results"):
+		return "err-results-missing"
 	default:
 		return "err-other"
 	}
@@ -518,22 +547,24 @@ func TestVerifC18(t *testing.T) {
 				t.Fatalf("reference node failed: %s", msg)
 			}
 			ref, nref = rep, n
-			r.Emit(l, fmt.Sprintf("ok n=%d notified=%s", n, c18List(rep.Notified)))
-			// the never-crashed node itself: every block notified exactly once, in order
-			for i, h := range rep.Notified {
-				if h != uint64(i) {
-					r.Violation("reference-notifications", "never-crashed node notified %v", rep.Notified)
-					break
+			r.Emit(l, fmt.Sprintf("ok n=%d notified=%s notifiedB=%s", n, c18List(rep.Notified), c18List(rep.NotifiedB)))
+			// the never-crashed node itself: every block notified exactly once, in order, to both
+			for _, log := range [][]uint64{rep.Notified, rep.NotifiedB} {
+				bad := len(log) != n+1
+				for i, h := range log {
+					if h != uint64(i) {
+						bad = true
+					}
 				}
-			}
-			if len(rep.Notified) != n+1 {
-				r.Violation("reference-notifications", "never-crashed node notified %v", rep.Notified)
+				if bad {
+					r.Violation("reference-notifications", "never-crashed node notified %v / %v", rep.Notified, rep.NotifiedB)
+				}
 			}
 		case len(f) == 4 && f[0] == "crash":
 			a, e1 := strconv.Atoi(f[1])
 			p, e2 := strconv.Atoi(f[2])
 			k, e3 := strconv.Atoi(f[3])
-			if e1 != nil || e2 != nil || e3 != nil || ref == nil || k < 1 || k > a || a > nref || p < 2 || p > 5 || a-k > 15 {
+			if e1 != nil || e2 != nil || e3 != nil || ref == nil || k < 1 || k > a || a > nref || p < 2 || p > 6 || a-k > 16 {
 				r.Emit(l, "bad-op")
 				continue
 			}
@@ -562,7 +593,7 @@ func TestVerifC18(t *testing.T) {
 					agree = "true"
 				}
 			}
-			r.Emit(l, fmt.Sprintf("idx=%d st=%d res=%d pre=%s restart=%s la=%s re=%s", pre.Idx, pre.St, pre.Res, c18List(pre.Notified), re.Outcome, la, c18List(re.Notified)))
+			r.Emit(l, fmt.Sprintf("idx=%d st=%d res=%d pre=%s preB=%s restart=%s la=%s re=%s reB=%s", pre.Idx, pre.St, pre.Res, c18List(pre.Notified), c18List(pre.NotifiedB), re.Outcome, la, c18List(re.Notified), c18List(re.NotifiedB)))
 			r.Count("restart:" + re.Outcome)
 			r.Count(fmt.Sprintf("point:%d", p))
 			r.Count(fmt.Sprintf("ahead:%d", int(pre.Idx)-int(pre.St)))
@@ -570,16 +601,22 @@ func TestVerifC18(t *testing.T) {
 			// ---- oracle: the property's statement
 			ahead := int(pre.Idx) - int(pre.St)
 			if re.Outcome != "ok" {
-				// class of the failing input: how far the index is ahead of the committed state
-				// (and, separately, the start-up failing for a reason unrelated to that distance)
-				key := fmt.Sprintf("restart-fails-index-ahead-of-state-by-%d", ahead)
-				if ahead >= 2 {
-					key = "restart-fails-index-ahead-of-state-by-2+"
-				}
-				if re.Outcome == "err-statedb-compact" {
+				// class of the failing input, by the reason of the failure and the relation of the markers
+				var key string
+				switch {
+				case re.Outcome == "err-statedb-compact":
 					key = "restart-fails-after-any-unclean-shutdown-statedb-compact"
-				} else if !(ahead == 1 && re.Outcome == "panic-nil") && !(ahead >= 2 && re.Outcome == "err-index-ahead") {
-					key += "-" + re.Outcome
+				case re.Outcome == "panic-nil" && ahead == 1:
+					key = "restart-fails-index-ahead-of-state-by-1"
+				case re.Outcome == "err-index-ahead" && ahead >= 2:
+					key = "restart-fails-index-ahead-of-state-by-2+"
+				case (re.Outcome == "err-results-height" || re.Outcome == "err-results-missing") && pre.Res < int64(pre.St):
+					// only possible if the state is committed before the execution results are written
+					key = "restart-fails-results-height-behind-state-height"
+				case re.Outcome == "err-results-height":
+					key = fmt.Sprintf("restart-fails-results-height-%+d-vs-state-index-ahead-%d", pre.Res-int64(pre.St), ahead)
+				default:
+					key = fmt.Sprintf("restart-fails-%s-index-ahead-%d", re.Outcome, ahead)
 				}
 				r.Violation(key, "%s: restart %s (%s) with index height %d, state height %d, results height %d", l, re.Outcome, c18Short(re.Err), pre.Idx, pre.St, pre.Res)
 				continue
@@ -590,28 +627,42 @@ func TestVerifC18(t *testing.T) {
 			if re.Cont != "ok" || int(re.FinalLA) != nref || re.FinalID != ref.PerH[nref].ID || re.FinalRt != ref.PerH[nref].Root {
 				r.Violation("restart-cannot-continue", "%s: after the restart the rest of the chain gives cont=%s final=%d/%s (%s)", l, re.Cont, re.FinalLA, re.FinalRt, c18Short(re.Err))
 			}
-			// every accepted block delivered at least once across the restart, in height order
-			seen := map[uint64]bool{}
-			inOrder := true
-			for _, run := range [][]uint64{pre.Notified, re.Notified} {
-				for i, h := range run {
-					seen[h] = true
-					if i > 0 && h < run[i-1] {
-						inOrder = false
+			// every accepted block delivered to each subscriber at least once across the restart, in height order
+			for si, logs := range [][2][]uint64{{pre.Notified, re.Notified}, {pre.NotifiedB, re.NotifiedB}} {
+				name := string(rune('A' + si))
+				seen := map[uint64]bool{}
+				inOrder := true
+				for _, run := range logs {
+					for i, h := range run {
+						seen[h] = true
+						if i > 0 && h < run[i-1] {
+							inOrder = false
+						}
 					}
 				}
-			}
-			var missing []uint64
-			for h := uint64(1); h <= uint64(a); h++ {
-				if !seen[h] {
-					missing = append(missing, h)
+				var missing []uint64
+				for h := uint64(1); h <= uint64(a); h++ {
+					if !seen[h] {
+						missing = append(missing, h)
+					}
 				}
-			}
-			if len(missing) > 0 {
-				r.Violation(fmt.Sprintf("accepted-block-never-notified-ahead-%d-point-%d", ahead, p), "%s: blocks %v were accepted but no subscriber notification was delivered before or after the restart (pre=%v re=%v)", l, missing, pre.Notified, re.Notified)
-			}
-			if !inOrder {
-				r.Violation("notifications-out-of-order", "%s: pre=%v re=%v", l, pre.Notified, re.Notified)
+				if len(missing) > 0 {
+					// class: was the index ahead of the state, and did the node stop between the state
+					// commit of the missing block and its delivery to this subscriber?
+					key := "accepted-block-never-notified-index-level-with-state"
+					if ahead >= 1 {
+						key = "accepted-block-never-notified-index-ahead"
+					}
+					if len(missing) == 1 && missing[0] == uint64(k) && (p == 4 || (p == 5 && si == 1)) {
+						key += "-crash-between-commit-and-notify"
+					} else {
+						key += "-other"
+					}
+					r.Violation(key, "%s: subscriber %s: blocks %v were accepted but never delivered before or after the restart (pre=%v re=%v)", l, name, missing, logs[0], logs[1])
+				}
+				if !inOrder {
+					r.Violation("notifications-out-of-order", "%s: subscriber %s pre=%v re=%v", l, name, logs[0], logs[1])
+				}
 			}
 		default:
 			r.Emit(l, "bad-op")
@@ -630,23 +681,27 @@ func c18Short(s string) string {
 func c18Generate(r *verifh.Run) []string {
 	var out []string
 	add := func(f string, a ...any) { out = append(out, fmt.Sprintf(f, a...)) }
-	n := r.N(3, 12)
+	n := r.N(3, 18)
 	add("chain %d", n)
 	// corpus: accept, accept, crash before anything is processed (index 2 ahead);
 	// one block accepted, crash at each of the points (index 1 ahead / level)
 	add("crash 2 2 1")
-	for p := 2; p <= 5; p++ {
+	for p := 2; p <= 6; p++ {
 		add("crash 1 %d 1", p)
 	}
 	add("crash 2 4 1") // committed, not notified, index ahead: the notification of block 1 is lost
+	add("crash 2 5 1") // the same between subscriber A and subscriber B
+	add("crash 3 3 2") // results one ahead of the state, index two ahead
 	add("crash 0 2 0")
 	add("crash 2 9 1")
 	add("frob")
 	if r.Thorough() {
+		add("crash %d 2 1", n-1) // 16 blocks queued behind the stalled one (acceptedQueueSize = 16)
+		add("crash %d 4 2", n)
 		for a := 1; a <= n; a++ {
 			for k := 1; k <= a; k++ {
-				for p := 2; p <= 5; p++ {
-					if a-k <= 15 && (a <= 4 || r.RNG.Chance(25)) {
+				for p := 2; p <= 6; p++ {
+					if a-k <= 16 && (a <= 4 || r.RNG.Chance(25)) {
 						add("crash %d %d %d", a, p, k)
 					}
 				}
@@ -657,7 +712,7 @@ func c18Generate(r *verifh.Run) []string {
 	for i := 0; i < extra; i++ {
 		a := 1 + r.RNG.Intn(n)
 		k := 1 + r.RNG.Intn(a)
-		add("crash %d %d %d", a, 2+r.RNG.Intn(4), k)
+		add("crash %d %d %d", a, 2+r.RNG.Intn(5), k)
 	}
 	return out
 }
